@@ -6,7 +6,9 @@ Import ListNotations.
 Open Scope string_scope.
 
 (** observed per request *)
-Inductive obs_action := OExec (q : bytes) | OExecError | ONotFound.
+(** [OModified]: the harness found its own request object or extension map changed after the call
+    (routes direct, direct-shared, direct-wb), or saw an answer that is none of the three others *)
+Inductive obs_action := OExec (q : bytes) | OExecError | ONotFound | OModified.
 Record obs := { o_action : obs_action; o_calls : list call }.
 
 Definition dec_ext (s : sexp) : option (option ext) :=
@@ -44,7 +46,8 @@ Definition dec_act (a : sexp) : option obs_action :=
   match untag a with
   | Some (t, [q]) => if String.eqb t "exec" then match as_bytes q with Some qb => Some (OExec qb) | None => None end else None
   | Some (t, []) => if String.eqb t "exec-error" then Some OExecError
-                    else if String.eqb t "notfound" then Some ONotFound else None
+                    else if String.eqb t "notfound" then Some ONotFound
+                    else if String.eqb t "unexpected" then Some OModified else None
   | _ => None
   end.
 
@@ -125,7 +128,9 @@ Definition classify (r : request) (spec_a : action) (o : obs_action) : string :=
 Fixpoint oracle (T : tbl) (i : nat) (rs : list request) (spec : list action) (os : list obs) : option sexp :=
   match rs, spec, os with
   | r :: rs', a :: spec', o :: os' =>
-      if negb (act_agrees T a (o_action o)) then
+      if (match o_action o with OModified => true | _ => false end) then
+        Some (v_oracle_fail "callers-request-modified-or-unexpected-answer" [of_nat i; tag "spec" [of_action a]])
+      else if negb (act_agrees T a (o_action o)) then
         Some (v_oracle_fail (classify r a (o_action o)) [of_nat i; tag "spec" [of_action a]])
       else if negb (forallb (fun p => bytes_eqb (snd p) (tbl_sha T (fst p))) (puts (o_calls o))) then
         Some (v_oracle_fail "registered-under-wrong-digest" [of_nat i])
